@@ -14,7 +14,8 @@ are stored and delivered. Sources (paths relative to `/repo/src`):
   `event_per_zone` rows.
 * `engine/core/zone/zone_cursor_loader.rs` — one cursor per (input segment in label order,
   zone in id order); `zone/zone_merger.rs` — `BinaryHeap<Reverse<HeapItem>>`, `HeapItem`
-  ordered by context id ONLY; `compaction/multi_uid_compactor.rs` — output zones of
+  ordered by (context id, cursor index) since fix 32904ff (by the context id only before);
+  `compaction/multi_uid_compactor.rs` — output zones of
   `ZoneBatchSizer::target_rows(level) = event_per_zone * (level + 1)` rows.
 * read side: `command/types.rs::to_query_command` (REPLAY = unordered QUERY FOR ctx),
   `engine/query/streaming/scan.rs` (memtable flow, segment flow), `merger.rs` (fan-in: one
@@ -91,52 +92,40 @@ def segZones (z : Nat) (s : Shard) (id ty : Nat) : List (List Ev) :=
 def segRowsOrd (s : Shard) (id ty : Nat) : List Ev :=
   (s.segs.filter (·.1 == id)).flatMap fun p => entryRows p ty
 
-/-! ## `ZoneMerger` -/
+/-! ## `ZoneMerger`
 
-/-- Heap entry: (context id of the cursor's next row, cursor index). -/
-abbrev HItem := Nat × Nat
+`BinaryHeap<Reverse<HeapItem>>`; since fix 32904ff `HeapItem` is ordered by
+(context id, cursor index). The merger is `Snel.Order.mergeRun` (initial push of every non-empty
+cursor's head in cursor order; pop, emit, push the cursor's next row) over an arbitrary priority
+queue; the engine's queue is `heapPQ` (std's array heap, push/pop modelled exactly) with the
+reversed comparison. Rows are decorated with their position in the concatenation of all cursors
+(`seq`) so that "input order" can be stated; the engine's comparison never looks at it. -/
 
-/-- `Ord for Reverse<HeapItem>`: reversed comparison of the context ids, nothing else. -/
-def hcmp (a b : HItem) : Ordering := ctxCmp b.1 a.1
+/-- A cursor row together with its global input position. -/
+structure DRow where
+  seq : Nat
+  ev : Ev
+  deriving DecidableEq, Repr
 
-structure MState where
-  cursors : Array (List Ev)
-  heap : Array HItem
+def enumFrom : Nat → List Ev → List DRow
+  | _, [] => []
+  | off, e :: es => ⟨off, e⟩ :: enumFrom (off + 1) es
 
-/-- `ZoneMerger::new`: the first context id of every non-empty cursor, pushed in cursor order. -/
-def mergerInit (cs : List (List Ev)) : MState :=
-  let arr := cs.toArray
-  let heap := (List.range cs.length).foldl (fun (h : Array HItem) i =>
-    match arr[i]? with
-    | some (e :: _) => Snel.Order.heapPush hcmp h (e.ctx, i)
-    | _ => h) #[]
-  ⟨arr, heap⟩
+def decorateFrom : Nat → List (List Ev) → List (List DRow)
+  | _, [] => []
+  | off, c :: cs => enumFrom off c :: decorateFrom (off + c.length) cs
 
-/-- One iteration of the loop in `next_row` / `next_zone`: pop, take the cursor's row, push the
-cursor's next context id. -/
-def mergerNext (m : MState) : Option (Ev × MState) :=
-  match Snel.Order.heapPop hcmp m.heap with
-  | none => none
-  | some (top, heap) =>
-    match m.cursors[top.2]? with
-    | some (e :: rest) =>
-      let cursors := m.cursors.set! top.2 rest
-      let heap := match rest with
-        | [] => heap
-        | e' :: _ => Snel.Order.heapPush hcmp heap (e'.ctx, top.2)
-      some (e, ⟨cursors, heap⟩)
-    | _ => none
+/-- `Ord for Reverse<HeapItem>`: context id, then cursor index, reversed (`BinaryHeap` is a
+max-heap). `Item.idx` is the cursor index (`enumerate()` over all cursors, empty ones included). -/
+def hcmp (a b : Snel.Order.Item DRow) : Ordering :=
+  (ctxCmp b.row.ev.ctx a.row.ev.ctx).then (compare b.idx a.idx)
 
-def mergerRun : Nat → MState → List Ev
-  | 0, _ => []
-  | fuel + 1, m =>
-    match mergerNext m with
-    | none => []
-    | some (e, m') => e :: mergerRun fuel m'
+/-- The merged row stream of a cursor set, for a given priority queue. -/
+def mergeCursorsPQ (pq : Snel.Order.PQ (Snel.Order.Item DRow)) (cs : List (List Ev)) : List Ev :=
+  (Snel.Order.mergeRun pq (decorateFrom 0 cs) 0 none).map (·.ev)
 
-/-- The merged row stream of a cursor set. -/
-def mergeCursors (cs : List (List Ev)) : List Ev :=
-  mergerRun ((cs.map List.length).foldl (· + ·) 0) (mergerInit cs)
+/-- … with the queue the engine uses. -/
+def mergeCursors (cs : List (List Ev)) : List Ev := mergeCursorsPQ (Snel.Order.heapPQ hcmp) cs
 
 /-! ## Compaction round with the merger's row order -/
 
